@@ -21,7 +21,7 @@ REPORT = ['modules', 'cases', 'evaluations', 'prefix_rejected_with_decode_error'
           'skipped_unsupported', 'carved_out']
 FLOORS = {'quick': {'evaluations': 100000, 'cases': 5000},
           'thorough': {'evaluations': 400000, 'cases': 20000}}
-TIMEOUT = {'quick': 1500, 'thorough': 14000}
+TIMEOUT = {'quick': 1500, 'thorough': 5400}
 
 
 def shards(tier):
